@@ -116,6 +116,47 @@ def rule_arbitrary_pick(ctx):
     ctx.ob("C31.3", "lint ran over p2panda-auth", True, "%d pick / early-exit sites over hash collections" % n, trivial=True)
 
 
+def rule_traversal(ctx):
+    """C31.4 — the transitive member traversal does not depend on the hash order of the members: for every element of
+    kind GroupMember::Group the recursion into that sub-group is unconditional (in particular not suppressed by what an
+    earlier iteration already put into the result map), so a sub-group reached over two paths is expanded under both
+    root accesses and the max-merge of the result map decides."""
+    from facts import Place, op_place
+    from mir import edge_dominates
+    MI = "p2panda_auth::group::crdt::GroupCrdtInnerState::members_inner"
+    b = ctx.body(MI)
+    rec = calls_to(b, MI)
+    loops = [c for c in sem_calls(b) if c.name.endswith("Iterator::next") and "desugar:ForLoop" in (c.term.get("mac") or [])]
+    if not ctx.ob("C31.4", "members_inner: loop over the members and recursive call", bool(rec) and len(loops) >= 1,
+                  "anchor-missing: recursive calls %d, loops %d" % (len(rec), len(loops)), site=b.loc(), trivial=True):
+        return
+    heads = {l.bb for l in loops}
+    group_edges = []
+    for bb, t in b.terms("switch"):
+        p_ = op_place(t["discr"])
+        if p_ is None:
+            continue
+        for kind, dbb, idx, rv in b.defs_of(p_.local):
+            if kind == "assign" and rv["k"] == "discr" and (rv.get("adt") or "").split("<")[0].endswith("GroupMember"):
+                adt = ctx.prog.adt_by_stripped(strip_generics(rv["adt"]))
+                names = [v["name"] for v in adt["variants"]] if adt else []
+                for v, tg in t["targets"]:
+                    if 0 <= v < len(names) and names[v] == "Group":
+                        group_edges.append((bb, tg))
+                if "Group" in names and names.index("Group") not in [v for v, _ in t["targets"]]:
+                    group_edges.append((bb, t["otherwise"]))
+    if not ctx.ob("C31.4", "members_inner: test of the member kind", bool(group_edges), "anchor-missing: no match on GroupMember",
+                  site=b.loc(), trivial=True):
+        return
+    rec_bbs = {c.bb for c in rec}
+    ok = all(b.must_pass(rec_bbs, frm=e[1], to=list(heads) + list(b.exits())) for e in group_edges)
+    ctx.ob("C31.4", "every sub-group member is expanded, on every path", ok,
+           "members_inner can continue with the next member (or return) for a GroupMember::Group element without recursing into "
+           "that sub-group (e.g. because an earlier iteration already inserted it): which access a nested member inherits then "
+           "depends on the hash order in which the paths to the sub-group are visited — replicas and repeated queries disagree",
+           site=rec[0].loc(), key="C31.4:subgroup-always-expanded")
+
+
 def run(ctx):
     ctx.explanation = (
         "Partial. Decides: (a) antisymmetry, consistency with == and transitivity of Access::partial_cmp by enumerating "
@@ -131,6 +172,7 @@ def run(ctx):
     if "f" in pc:
         ctx.guarded(lambda: rule_fold_steps(ctx, pc["f"]), "C31")
     ctx.guarded(lambda: rule_arbitrary_pick(ctx), "C31")
+    ctx.guarded(lambda: rule_traversal(ctx), "C31")
 
 
 MANIFEST = {
